@@ -22,18 +22,23 @@ func TestReach(t *testing.T) {
 	if os.Getenv("FORGE_REACH") == "" {
 		t.Skip("tuning aid")
 	}
-	for _, kind := range []string{"DCTDecode", "JBIG2Decode"} {
+	for _, kind := range []string{"DCTDecode", "JBIG2Decode", "LZWDecode"} {
 		tally := map[string]int{}
 		for seed := uint64(1); seed <= 3000; seed++ {
 			tp := tape.New(seed)
 			var body, globals []byte
 			var desc string
-			if kind == "DCTDecode" {
+			var parms pdf.Dict
+			if kind == "LZWDecode" {
+				var ec int
+				body, ec, _ = LZW(tp, "lz")
+				parms = pdf.Dict{"EarlyChange": pdf.Integer(ec)}
+			} else if kind == "DCTDecode" {
 				body, desc = JPEG(tp, "fj")
 			} else {
 				body, globals, _ = JBIG2(tp, "jb")
 			}
-			f, err := pdf.MakeFilter(pdf.Name(kind), nil)
+			f, err := pdf.MakeFilter(pdf.Name(kind), parms)
 			if err != nil {
 				t.Fatal(err)
 			}
